@@ -142,6 +142,76 @@ def tree_name(tree):
     return None
 
 
+def holder_classes(tu):
+    """template-erased names of the per-function expectation holder (`expectations`) and of its base classes"""
+    r = tu.__dict__.get("_holder_classes")
+    if r is not None:
+        return r
+    out = {NS + "expectations"}
+    work = [NS + "expectations"]
+    while work:
+        q = work.pop()
+        for c in tu.cls_by_qe.get(q, []):
+            for b in c.get("bases", ()):
+                bq = erase(b.get("t", "").replace("struct ", "").replace("class ", "").strip())
+                if bq.startswith(NS) and bq not in out:
+                    out.add(bq)
+                    work.append(bq)
+    tu.__dict__["_holder_classes"] = out
+    return out
+
+
+def holder_field(tu, field):
+    """'active' / 'saturated' when `field` (erased or not) is that list of the expectation holder - declared in
+    `expectations` itself or in one of its bases - else None"""
+    fe = erase(field)
+    cls, _, leaf = fe.rpartition("::")
+    if leaf in ("active", "saturated") and cls in holder_classes(tu):
+        return leaf
+    return None
+
+
+def peer_roles(tu):
+    """Borrowing members found by role (type), so that a renamed member or a reference turned into a pointer keeps its
+    rules.  -> dict role -> erased field name (absent when not identifiable):
+      slot        the one pointer member of null_on_move (monitor slot inside a watched object)
+      back        lifetime_monitor's reference / pointer to that slot
+      prev_tracer tracer's pointer to the previously active tracer
+      seq_ref     sequence_matcher's reference to its sequence_type"""
+    import re as _re
+    r = tu.__dict__.get("_peer_roles")
+    if r is not None:
+        return r
+
+    def fields(cq, pred):
+        for c in tu.cls_by_qe.get(cq, []):
+            if c.get("incomplete"):
+                continue
+            hit = [erase(f["q"]) for f in c.get("fields", ()) if pred(f["t"].strip())]
+            if hit:
+                return hit
+        return []
+    out = {}
+    for role, cq, pred in (
+            ("slot", NS + "null_on_move", lambda t: t.endswith("*")),
+            ("back", NS + "lifetime_monitor",
+             lambda t: _re.match(r"(trompeloeil::)?lifetime_monitor \*\s*(&|\*)\s*(const)?$", t) is not None),
+            ("prev_tracer", NS + "tracer", lambda t: _re.match(r"(trompeloeil::)?tracer \*(\s*const)?$", t) is not None),
+            ("seq_ref", NS + "sequence_matcher", lambda t: _re.match(r"(trompeloeil::)?sequence_type\s*(&|\*)", t) is not None)):
+        h = fields(cq, pred)
+        if len(h) == 1:
+            out[role] = h[0]
+    tu.__dict__["_peer_roles"] = out
+    return out
+
+
+def strip_deref(t):
+    """(*x), (T)x -> x"""
+    while isinstance(t, list) and t and ((t[0] == "u" and t[1] == "*") or t[0] == "cast"):
+        t = t[2]
+    return t
+
+
 def reported_role(tu):
     """The expectation's 'already reported' flag, by role rather than by name: the only boolean member of
     call_matcher.  -> (erased field name, value that means 'reported'); the value is the negation of the member's
